@@ -11,6 +11,8 @@ import (
 	"fmt"
 	"os"
 	"path/filepath"
+	"runtime/debug"
+	"runtime/pprof"
 	"strconv"
 	"strings"
 	"time"
@@ -53,6 +55,8 @@ func seedFromEnv() int64 {
 }
 
 func main() {
+	// the loaded program (~3 GB, static) dominates the live heap: collect less often
+	debug.SetGCPercent(200)
 	if len(os.Args) < 2 {
 		usage()
 	}
@@ -92,6 +96,7 @@ func main() {
 		mutate := fs.String("mutate", "", "comma-separated /repo/file=replacement overlay entries")
 		noNative := fs.Bool("nonative", false, "skip native confirmation / trace validation")
 		verbose := fs.Bool("v", false, "print every violation")
+		cpuprof := fs.String("cpuprofile", "", "write a CPU profile")
 		fs.Parse(os.Args[2:])
 		if *harness == "" {
 			usage()
@@ -120,7 +125,14 @@ func main() {
 			}
 			defer nat.Close()
 		}
+		if *cpuprof != "" {
+			f, _ := os.Create(*cpuprof)
+			pprof.StartCPUProfile(f)
+		}
 		res := explore(ld, spec, *tier, seedFromEnv(), *workers, *logSMT)
+		if *cpuprof != "" {
+			pprof.StopCPUProfile()
+		}
 		res.print(os.Stdout, *verbose)
 		if nat != nil {
 			confirmAndValidate(nat, res, *tier, seedFromEnv())
